@@ -407,12 +407,6 @@ func (g *gate) Write(h *rtp.Header, p []byte, a interceptor.Attributes) (int, er
 	return h.MarshalSize() + len(p), nil
 }
 
-func (g *gate) mark() {
-	g.mu.Lock()
-	g.checked = len(g.evs)
-	g.mu.Unlock()
-}
-
 // ---------------------------------------------------------------------------------
 // requests
 
@@ -680,6 +674,7 @@ func (sc *scn) judge(k groupKey, g *group, end int64) {
 		unexpected = uncovered - (M + Y)
 	}
 	sc.fp.Int(len(g.reqs)).Int(len(g.evs))
+	in.mu.Lock()
 	for _, q := range g.reqs {
 		sc.fp.Int(q.cls)
 		if q.cand != nil {
@@ -688,6 +683,7 @@ func (sc *scn) judge(k groupKey, g *group, end int64) {
 			}
 		}
 	}
+	in.mu.Unlock()
 	if missing > 0 {
 		var ref *orig
 		for _, q := range g.reqs {
